@@ -136,6 +136,9 @@ func (encr *EncrAesCbcCrypto) Decrypt(cipherText []byte) ([]byte, error) {
 	if len(encryptedMessage)%aes.BlockSize != 0 {
 		return nil, errors.Errorf("EncrAesCbcCrypto: Cipher text is not a multiple of block size")
 	}
+	if len(encryptedMessage) == 0 {
+		return nil, errors.Errorf("EncrAesCbcCrypto: Cipher text contains no block besides the initialization vector")
+	}
 
 	// Slice
 	plainText := make([]byte, len(encryptedMessage))
@@ -147,6 +150,9 @@ func (encr *EncrAesCbcCrypto) Decrypt(cipherText []byte) ([]byte, error) {
 	// fmt.Printf("Decrypted content:\n%s", hex.Dump(plainText))
 	// Remove padding
 	padding := int(plainText[len(plainText)-1]) + 1
+	if padding > len(plainText) {
+		return nil, errors.Errorf("EncrAesCbcCrypto: Pad length %d exceeds the decrypted data", padding-1)
+	}
 	plainText = plainText[:len(plainText)-padding]
 
 	// fmt.Printf("Decrypted content with out padding:\n%s", hex.Dump(plainText))
